@@ -349,8 +349,20 @@ def pmap(ctx, modname, funcname, items, builddir, procs=None, env=None, chunks=1
 
     done = 0
     try:
+        # cold numba cache (new tree): let ONE worker run the first item and populate the on-disk cache
+        # before the others start, instead of 16 workers compiling the same functions at once
+        cache_dir = os.environ.get("NUMBA_CACHE_DIR")
+        if cache_dir and procs > 1 and len(args) > 1:
+            try:
+                cold = sum(len(fs) for _, _, fs in os.walk(cache_dir)) < 40
+            except OSError:
+                cold = False
+            if cold:
+                with pool(1) as ex:
+                    ctx.merge(ex.submit(_call, args[0]).result())
+                done = 1
         with pool(procs) as ex:
-            for exported in ex.map(_call, args, chunksize=chunks):
+            for exported in ex.map(_call, args[done:], chunksize=chunks):
                 ctx.merge(exported)
                 done += 1
         return
